@@ -166,7 +166,7 @@ class RunWeights(Relation):
             ns = G.legal(rng, G.MPS[k % 4])
             sk = self.SKEWS[k % len(self.SKEWS)]
             ns['skew'] = None if sk is None else float(sk)
-            ns['numinst'] = 1
+            ns['numinst'] = 1 + k % 3          # later instances of one run must use the requested skew as well
             yield dict(ns=ns, seed=rng.randrange(10**6))
 
     def observe(self, inp):
@@ -178,7 +178,7 @@ class RunWeights(Relation):
 
     def term(self, inp, obs):
         ns = inp['ns']
-        if obs['code'] != 0 or len(obs['ps']) != ns['n1'] or any(q is None for q in obs['ps']):
+        if obs['code'] != 0 or len(obs['ps']) != ns['n1'] * ns['numinst'] or any(q is None for q in obs['ps']):
             return 'false'
         n2 = ns['n1'] if ns['mp'] == 'sm' else ns['n2']
         sk = 1.0 if ns['skew'] is None else ns['skew']
